@@ -31,6 +31,8 @@ P5 (K1) upgrade.Convert.convert: needs_format_conversion / can_convert_format / 
 precede backup_bzrdir() and every converter step: an incompatible target is refused before anything is moved.
 P6 (K1) Converter3to4.convert: create_dirstate_data, then update_format, then remove_xml_files — the marker is switched
 between writing the new data and deleting the old.
+P7 (third round) with _create_branch set and a referenced branch, repo.fetch(self.referenced_branch.repository, …) lies on every path to
+   controldir.create_branch(), whether the repository is created or reused.
 Does not decide: the other converters, nor that the copied data is equal (values); those stay not applicable.
 """
 DESTROY = {"destroy_branch", "destroy_repository", "destroy_workingtree"}
@@ -74,6 +76,15 @@ def run(ctx):
     sets = [c for c in calls_in(fn) if call_attr(c) == "set_last_revision_info"]
     ctx.check("P2-tip-captured-before-destroy-branch", where, len(sets) == 1 and norm(sets[0]).endswith("set_last_revision_info(*last_revision_info)"), "a branch created afterwards is set to the captured tip", construct="; ".join(norm(c) for c in sets))
     cb = need(where, calling(g, attr="create_branch", recv="self.controldir"), "controldir.create_branch()")
+    # ---- P7: a branch created in place of a reference has its history in the repository it will use -------------------
+    # (whichever repository that is: a new one, or an existing shared one that is not the referenced branch's)
+    fetch_ref = [n.id for n in g.nodes if any(call_attr(c) == "fetch" and c.args and "referenced_branch" in norm(c.args[0]) for c in n.calls())]
+    need(where, fetch_ref, "repo.fetch(self.referenced_branch.repository, …)")
+    for create_repo in (True, False):
+        g7 = g.assume({"self._create_branch": True, "self.referenced_branch is not None": True, "self.referenced_branch is None": False, "self._create_repository": create_repo, "self._create_branch and self.referenced_branch is not None": True}).without_exc_edges()
+        live_cb = [i for i in cb if i in g7.reachable_from_entry()]
+        ok7 = bool(live_cb) and not (set(live_cb) & g7.reach([g7.entry], avoid=set(fetch_ref), include_src=True))
+        ctx.check("P7-new-branch-history-fetched", f"{where}[_create_repository={create_repo}]", ok7, f"with _create_branch set and a referenced branch, every path to controldir.create_branch() passes repo.fetch(self.referenced_branch.repository, …) (repository {'created' if create_repo else 'reused'})", message=f"Reconfigure.apply can create the local branch in place of a reference without having fetched the referenced branch's history into the repository it uses (repository {'created' if create_repo else 'reused, e.g. a lightweight checkout inside a shared repository other than the one of its branch'}): the new branch's tip names a revision its repository lacks, tip and testaments are unreadable")
     # ---- P3 -----------------------------------------------------------------------------------
     mt = [c for c in calls_in(fn) if call_attr(c) == "merge_to"]
     pairs = sorted((norm(c.func.value), norm(c.args[0])) for c in mt)
@@ -123,6 +134,7 @@ def run(ctx):
     k1_before(ctx, "P6-converter-marker-between", w6, g6, up6, rm6, "the format marker is switched before the old-format files are removed (an interrupted conversion leaves either a complete format-3 or a complete format-4 tree)")
 
 MUTANTS = [
+    Mutant("referenced history fetched only into a new repository", RC, "        else:\n            repo = self.repository\n        if self._create_branch and self.referenced_branch is not None:\n", "        else:\n            repo = self.repository\n        if self._create_repository and self._create_branch and self.referenced_branch is not None:\n", expect="P7-new-branch-history-fetched"),
     Mutant("format marker switched after the old files are gone", "breezy/bzr/workingtree_4.py", "            self.update_format(tree)\n            self.remove_xml_files(tree)\n", "            self.remove_xml_files(tree)\n            self.update_format(tree)\n", expect="P6-converter-marker-between"),
     Mutant("only the tip's ancestry is fetched out", RC, "                reference_branch.repository.fetch(self.repository)\n", "                reference_branch.repository.fetch(self.repository, self.local_branch.last_revision() if self.local_branch is not None else None)\n", expect="P1-fetch-before-destroy-repository"),
     Mutant("upgrade without the target pre-flight", "breezy/upgrade.py", "        self.controldir.check_conversion_target(format)\n", "", expect="P5-upgrade-preflight"),
